@@ -6,8 +6,8 @@ import (
 	"sort"
 	"strings"
 
-	imagev1 "github.com/bufbuild/buf/private/gen/proto/go/buf/alpha/image/v1"
 	"github.com/bufbuild/buf/private/bufpkg/bufimage"
+	imagev1 "github.com/bufbuild/buf/private/gen/proto/go/buf/alpha/image/v1"
 	"github.com/bufbuild/bufverif/internal/evid"
 	"github.com/google/uuid"
 	"google.golang.org/protobuf/proto"
@@ -77,7 +77,8 @@ type expectation struct {
 	targets  []string // reference targets (image paths), sorted
 	direct   *Direct  // bare compiler output for the same texts
 	specDeps map[string][]string
-	extRoot  string // prefix of external paths ("" for a bucket input ".", the directory the user gave for the CLI)
+	extRoot  string         // prefix of external paths ("" for a bucket input ".", the directory the user gave for the CLI)
+	remote   map[int]string // module index -> commit id (dashed) for modules served by a provider instead of the workspace
 }
 
 // counters of clause coverage, merged into the run at the end of a work item.
@@ -234,10 +235,15 @@ func checkImage(point string, exp *expectation, obs []obsFile, cnt counters) []v
 			if wantName := exp.world.ModNames[f.Module]; o.ModName != wantName {
 				bad("owner/name", "%s: module name %q, owner is %q", o.Path, o.ModName, wantName)
 			}
-			if o.Commit != "" {
-				bad("owner/commit", "%s: commit %q on a file of a workspace module (which has no commit)", o.Path, o.Commit)
+			wantCommit, isRemote := exp.remote[f.Module]
+			if o.Commit != wantCommit {
+				if isRemote {
+					bad("owner/commit-of-dependency", "%s: commit %q, the dependency is pinned at %q", o.Path, o.Commit, wantCommit)
+				} else {
+					bad("owner/commit", "%s: commit %q on a file of a workspace module (which has no commit)", o.Path, o.Commit)
+				}
 			}
-			if o.Ext != "" {
+			if o.Ext != "" && !isRemote {
 				wantExt := joinDir(exp.extRoot, f.Ext)
 				if o.Ext != wantExt {
 					bad("extpath/differs", "%s: external path %q, want %q", o.Path, o.Ext, wantExt)
@@ -284,15 +290,24 @@ func checkSpecAgainstDirect(s *Spec, d *Direct) string {
 		if strings.Join(deps, ",") != strings.Join(got, ",") {
 			return fmt.Sprintf("spec deps of f%d %v != direct %v", i, deps, got)
 		}
-		// the compiler may attribute a symbol to a public re-export instead of the direct import, so the naive
-		// expectation is only a lower bound of what the compiler reports unused
+		// Unused workspace imports: the compiler attributes a symbol to the first import that makes it visible
+		// (possibly a public re-export), so only the WKT imports have an unambiguous expectation here.
 		got32 := map[int32]bool{}
 		for _, u := range d.unusedIndexes(relPaths[i]) {
 			got32[u] = true
 		}
-		for _, u := range unused {
-			if !got32[int32(u)] {
-				return fmt.Sprintf("spec unused of f%d %v not reported by the direct compiler (%v)", i, unused, d.unusedIndexes(relPaths[i]))
+		for idx, dep := range deps {
+			if !isWKTPath(dep) {
+				continue
+			}
+			wantUnused := false
+			for _, u := range unused {
+				if u == idx {
+					wantUnused = true
+				}
+			}
+			if wantUnused != got32[int32(idx)] {
+				return fmt.Sprintf("spec says WKT import #%d of f%d unused=%v, direct compiler reports unused %v", idx, i, wantUnused, d.unusedIndexes(relPaths[i]))
 			}
 		}
 		if (s.Syntax[i] == sUnspecified) != d.NoSyntax[relPaths[i]] {
